@@ -27,6 +27,7 @@ func (b *bmcSys) newProcMachine(p *bproc, prefix []int) *Machine {
 	m.reads = map[string]bool{}
 	m.writes = map[string]bool{}
 	m.trackObjs = false
+	m.escaped = map[*Object]bool{}
 	m.chanLenFn = func(c *Chan) Value {
 		m.touched = append(m.touched, c) // the local code depends on this channel's state
 		return b.intToBV(b.chanState(c).length)
